@@ -89,6 +89,8 @@ def make_flow(cfg, seed):
         # Sampling draws such noise freely, so these families are left to C02/C03, where inputs are placed inside the band.
         keep = [c for c in cfg["parts"] if c["fam"] not in ("squash_pair", "composite_cdf")]
         cfg["parts"] = keep or [{"fam": "lu", "shape": [cfg["D"]], "cache": False, "idinit": False}]
+        # sampling: a LogTanh goes first (data side) so that its exploding inverse is applied last (see dzoo.sample_flow_cfg)
+        cfg["parts"].sort(key=lambda c: 0 if c["fam"] == "logtanh" else 1)
     return c03.make_flow(cfg, seed)
 
 
